@@ -55,6 +55,12 @@ def gen_cases(tier, seed):
             name = "RadauIIA5"
         cases.append(dict(method=name, dtype="float64", sign=1, h=float(10 ** rng.uniform(0.8, 2.0)), t0=0.0, shape=[3],
                           pseed=int(rng.integers(1 << 30)), history=[], hard=True, cost=20))
+    for r in range(56 if tier == "quick" else 400):
+        # extended precision takes the built-in dogleg path: a stagnating iteration must not be accepted (LobattoIIIC2 on polynomial
+        # programs is where a stagnated solve was first seen to be accepted: it gets most of the probes)
+        name = "LobattoIIIC2" if r % 8 else [n for n in impl if M[n]["stages"] <= 3][int(rng.integers(len([n for n in impl if M[n]["stages"] <= 3])))]
+        cases.append(dict(method=name, dtype="longdouble", sign=int(rng.choice([-1, 1])), h=float(rng.choice([-1, 1])) * float(rng.choice([0.75, 1.0, 1.5, 2.5])), t0=0.0, shape=[2],
+                          pseed=int(rng.integers(1 << 30)), history=["end"], hard=False, poly=True, tol=float(rng.choice([1e-13, 1e-13, 1e-11])), cost=6))
     # in situ: the same oracle attached (through a callback) to every step of real OdeSystem runs, across rejected steps, FSAL reuse,
     # successive integrate() calls and a change of the constants between two calls
     sysm = [n for n, i in M.items() if not i["splitting"]]
@@ -194,9 +200,21 @@ def run_case(spec):
     hard = spec.get("hard", False)
     prob = Manufactured(n, spec["pseed"], direction=spec["sign"], shape=shape,
                         nonlin=(3.0 if hard else 0.3), damping=((5.0, 40.0) if hard else (0.3, 2.0)))
+    if spec.get("poly"):
+        from vf.problems import GradedPoly
+        gp = GradedPoly(2, 4000 + spec["pseed"] % 200, nper=1)
+
+        class _GP:      # adapter with the attributes the reference model needs
+            w = np.array([1.0]); v = np.array([1.0])
+            rhs = staticmethod(lambda t, y, **kw: gp.rhs(t, y))
+            ystar = staticmethod(lambda t, dtype=np.longdouble: np.array([float(v_) for v_ in gp.y0], dtype=dtype))
+            lipschitz = staticmethod(lambda: 8.0)
+        prob = _GP
+        shape = (gp.dim,)
+        n = gp.dim
     rec = util.Rec(sig="%s|%s|%d|%s|%d|%s" % (spec["method"], spec["dtype"], spec["sign"], shape, spec["pseed"], "".join(h[0] for h in spec["history"])))
     feats = {"method": spec["method"], "family": info["family"], "dtype": spec["dtype"], "sign": spec["sign"]}
-    intg = info["cls"](shape, dtype=dt)
+    intg = info["cls"](shape, dtype=dt, **(dict(rtol=spec["tol"], atol=spec["tol"]) if spec.get("tol") else {}))
     util.passthrough_adaptation(intg)
     log = StepLog(intg)
     rhs = de.DiffRHS(prob.rhs)
